@@ -19,6 +19,7 @@ import (
 	"encoding/base64"
 	"fmt"
 	"io"
+	"mime/multipart"
 	"net/http"
 	"net/url"
 	"reflect"
@@ -226,7 +227,23 @@ func (p *untypedParamBinder) Bind(request *http.Request, routeParams RouteParams
 		}
 
 		if p.parameter.Type == "file" {
-			file, header, ffErr := request.FormFile(p.parameter.Name)
+			// a file parameter is a scalar: like every other scalar it is bound to the last
+			// occurrence of its name (http.Request.FormFile would pick the first one)
+			var headers []*multipart.FileHeader
+			if request.MultipartForm != nil {
+				headers = request.MultipartForm.File[p.parameter.Name]
+			}
+			if len(headers) == 0 {
+				if p.parameter.Required {
+					// the request carries no file under that name (or is a urlencoded form): a missing
+					// required parameter, reported like every other one
+					return errors.Required(p.Name, p.parameter.In, nil)
+				}
+
+				return nil
+			}
+			header := headers[len(headers)-1]
+			file, ffErr := header.Open()
 			if ffErr != nil {
 				if p.parameter.Required {
 					return errors.NewParseError(p.Name, p.parameter.In, "", ffErr)
